@@ -1,5 +1,5 @@
 import copy
-from harness.common import Prop, canon
+from harness.common import Prop, canon, scale
 from harness import gen_build as G
 from harness import gen_models as M
 
@@ -112,7 +112,7 @@ class C07(Prop):
                   'non-trivial = >=1 port; distinct = distinct case')
 
     def streams(self, rng, tier):
-        n = 400 if tier == 'quick' else 15000
+        n = 400 if tier == 'quick' else scale(20000)
         yield 'name-clash', [clash_case(rng) for _ in range(n)]
         yield 'same-spelling', [same_spelling_case(rng) for _ in range(n // 2)]
         plain = []
